@@ -71,7 +71,7 @@ def run_path(est, X, y, pa, s, label):
     def on_val(clf, Xv, yv, bs, res):
         if len(calls) > call_bound:
             raise _NonTermination()
-        calls.append({"alpha": float(clf.alpha), "score": float(res[0]), "l1": float(res[1]), "weights": weights_of(clf),
+        calls.append({"bs": int(bs), "alpha": float(clf.alpha), "score": float(res[0]), "l1": float(res[1]), "weights": weights_of(clf),
                       "nsel": int((np.linalg.norm(skip_matrix(clf), axis=1) != 0).sum())})
 
     with warnings.catch_warnings(record=True) as wrn:
@@ -107,6 +107,11 @@ def oracle_path(case):
         raise Violation(f"{label}: path returned {type(res).__name__} of length {len(res) if hasattr(res, '__len__') else '?'}")
     best_weights, geminis, penalties, alphas, n_features = res
     L = len(alphas)
+    want_bs = len(X) if s.get("batch_size") is None else s["batch_size"]
+    odd = sorted({c["bs"] for c in calls if c["bs"] != want_bs})
+    if odd:
+        raise Violation(f"{label}: validation scores were computed over blocks of {odd} rows while the model's batch size is "
+                        f"{want_bs}: the scores that the best-weights rule compares are not computed alike")
     if not (len(geminis) == len(penalties) == len(n_features) == L):
         raise Violation(f"{label}: histories have lengths geminis={len(geminis)}, penalties={len(penalties)}, alphas={L}, "
                         f"n_features={len(n_features)}")
